@@ -715,3 +715,12 @@ type InputVar struct {
 	UF   bool
 	Dims []int64
 }
+
+// ElemAddrV is the address of an element of a slice of unknown length held in a variable or
+// field (&x.f[i]); it only flows into sync/atomic pointer operations, which are given their
+// sequential meaning on the slice value.
+type ElemAddrV struct {
+	Owner LV
+	Idx   *Term
+	Elem  types.Type
+}
